@@ -405,6 +405,17 @@ def gen_cases(rng, tier):
     ]
     for i, t in enumerate(special):
         cases.append(["x%d" % i, "c19", "txt", t.encode().hex(), ""])
+    # media-type tokens are matched whole: a known type followed by anything but white space is not that type (there is no variant for unknown
+    # types, so the description is refused) - also when what follows is the port with the blank in between missing
+    k = 0
+    for mt in ("audio", "video", "text", "application"):
+        for suffix in ("x", "1", "49170", "_", "/9", "-1", "s", "49170/2", ".", "9 9"):
+            for rest in (" 9 RTP/AVP 0", " RTP/AVP 0", " 9/2 RTP/SAVP 0 8", ""):
+                t = "v=0\r\no=- 1 1 IN IP4 1.2.3.4\r\ns=-\r\nt=0 0\r\nm=%s%s%s\r\n" % (mt, suffix, rest)
+                if tier == "quick" and k % 2 and suffix not in ("49170", "1"):
+                    k += 1
+                    continue
+                cases.append(["rej%d" % k, "c19", "txt", t.encode().hex(), ""]); k += 1
     # multi-byte characters at every offset of the first bytes of a line (the type letter, the '=', the first value byte), alone and
     # inside a description: any UTF-8 text gives a description or an error
     k = 0
@@ -525,6 +536,11 @@ def oracle(case, impl):
             out.append("parsed description differs from the one written: " + _first_diff(case[4], d1))
         elif d2 != d1:
             out.append("print -> parse does not give back the description: " + _first_diff(d1, d2) + "  printed: " + repr(bytes.fromhex(t2).decode("utf-8", "replace"))[:300])
+    elif case[0].startswith("rej"):
+        line = next((l for l in bytes.fromhex(case[3]).decode("utf-8", "replace").split("\r\n") if l.startswith("m=")), "")
+        tok = line[2:].split(" ")[0]
+        if line and tok not in ("audio", "video", "text", "application") and not (impl.startswith("ERR") or impl == "NOT-UTF8"):
+            out.append("%r was accepted: the media type is matched by prefix, the rest of the token was read as something else" % line)
     else:
         # arbitrary text: the property demands a description or an error, never a panic (checked above).  Whether an
         # accepted text survives print -> parse is NOT demanded: the parser accepts values outside the field grammar
